@@ -550,6 +550,11 @@ class ISD(model.Document):
 
         StyleProcessors.BY_STYLE_PROP[inherited_style_prop].inherit(parent, isd_element)
 
+      # the writing mode applies only to regions: carry the writing mode of the region down the
+      # tree, where it is needed to compute tts:textEmphasis, until inapplicable styles are removed
+
+      isd_element.set_style(styles.StyleProperties.WritingMode, parent.get_style(styles.StyleProperties.WritingMode))
+
 
     # initial value styling
 
